@@ -5,10 +5,10 @@ package main
 // evaluates the rules mapped to one property (see /verif/DESIGN.md).
 
 import (
-	"golang.org/x/tools/go/ssa"
 	"encoding/json"
 	"flag"
 	"fmt"
+	"golang.org/x/tools/go/ssa"
 	"os"
 	"path/filepath"
 	"sort"
@@ -47,12 +47,13 @@ type Rule struct {
 // Ctx is the per-rule evaluation context.
 type Ctx struct {
 	*Prog
-	F      *Facts
-	rule   *Rule
-	obs    []Obligation
-	emMemo []*Emission
+	loaderMemo map[*ssa.Function]string
+	F          *Facts
+	rule       *Rule
+	obs        []Obligation
+	emMemo     []*Emission
 	replayMemo *replayModel
-	mapUpd map[ssa.Value][]*ssa.MapUpdate
+	mapUpd     map[ssa.Value][]*ssa.MapUpdate
 }
 
 func (c *Ctx) add(v Verdict, fn, construct, pos, why string, path ...string) {
@@ -393,7 +394,7 @@ func report(run *runResult, id, tier, out string, known []knownFinding, dump boo
 	sort.SliceStable(obs, func(i, j int) bool { return obs[i].Key < obs[j].Key })
 	isKnown := func(o Obligation) (knownFinding, bool) {
 		for _, k := range known {
-			if k.Key == o.Key && (k.Property == id || k.Property == "" || k.Property == "*") {
+			if (k.Key == o.Key || (curProg != nil && curProg.aliasKey(k.Key) == o.Key)) && (k.Property == id || k.Property == "" || k.Property == "*") {
 				return k, true
 			}
 		}
